@@ -774,7 +774,7 @@ func main() {
 	rep := vh.NewReport(a, "type terms built with the fork's go/types constructors: 17 atoms (basic kinds incl. the byte/rune alias objects, named types N1,N2, named interfaces E0 (empty), E1{M()}, E2{E1;N(int)}, E3{q.m()}, and the cyclic T{C() interface{T}}), "+
 		"25 closed interface/struct/func literals, and 61 constructor rules (pointer, slice, arrays of 5 lengths incl. -1 and 2^31-1, chan x3, map, tuples incl. nil-typed vars, signatures with/without receiver and variadic, "+
 		"structs with exported/unexported names in packages p/q/nil, tags, embedded flag, field order, interfaces with explicit methods, embedded named interfaces (also overlapping E1;E2), flattened variants, named receivers, shared *Func objects) applied exhaustively "+
-		"to every term of depth <=1 (quick: depth 2 is a PRNG sample of the exhaustive depth-2 set; thorough: the whole depth-2 set plus a depth-3 sample), n-ary partners drawn by PRNG; every term is built twice (pointer-disjoint twins). "+
+		"to every atom (depth 1 exhaustive: 1045 terms with the atoms); depth 2 = PRNG sample of whole sibling groups (all 61 rules on one depth-1 term) out of the 60k-term exhaustive depth-2 set: quick >=1500 terms, thorough >=8000 plus 1500 depth-3 terms; n-ary partners drawn by PRNG; every term is built twice (pointer-disjoint twins). "+
 		"Direct oracle on ALL ordered pairs of the universe. Correspondence: blocks of 26 terms (a window of sibling terms, twins, random terms) -> 676 model pairs each, and Map histories over pools of 12 keys with forced hash collisions. "+
 		"A counted case is one ordered pair of a block (non-trivial: both terms have the same outermost constructor other than Basic/Named) or one Map history (non-trivial: at least one successful Delete and one overwriting Set)")
 	wd := vh.NewWatchdog(rep, 20*time.Second)
@@ -820,28 +820,26 @@ func main() {
 		d2 = append(d2, expand(x, pick(upto1), pick(upto1))...)
 	}
 	specs := append([]*spec{}, upto1...)
-	exhaustive2 := a.Thorough()
+	n2 := 1500
 	if a.Thorough() {
-		specs = append(specs, d2...)
-		n3 := 6000
-		for k := 0; k < n3; k++ {
+		n2 = 8000
+	}
+	if a.N > 0 {
+		n2 = a.N
+	}
+	// whole sibling groups (all rules applied to the same child) so that near-miss pairs stay together
+	for len(specs) < len(upto1)+n2 {
+		e := expand(pick(d1), pick(upto1), pick(upto1))
+		specs = append(specs, e...)
+	}
+	if a.Thorough() {
+		for k := 0; k < 1500; k++ {
 			e := expand(pick(d2), pick(upto1), pick(d2))
 			specs = append(specs, e[rng.Intn(len(e))])
-		}
-	} else {
-		n2 := 1500
-		if a.N > 0 {
-			n2 = a.N
-		}
-		// whole sibling groups (all rules applied to the same child) so that near-miss pairs stay together
-		for len(specs) < len(upto1)+n2 {
-			e := expand(pick(d1), pick(upto1), pick(upto1))
-			specs = append(specs, e...)
 		}
 	}
 	rep.Extra["terms_depth_le1"] = len(upto1)
 	rep.Extra["terms_depth2_exhaustive_set"] = len(d2)
-	rep.Extra["depth2_exhaustive_this_run"] = exhaustive2
 	n := len(specs)
 	u := make([]term, 2*n)
 	for i, s := range specs {
@@ -873,13 +871,14 @@ func main() {
 	rep.Extra["identical_ordered_pairs_x_ne_y"] = nident
 
 	// ---- correspondence cases
-	nblocks, nhist, perShard := 48, 120, 21
+	nblocks, nhist, perShard := 40, 120, 20
 	if a.Thorough() {
 		nblocks, nhist, perShard = 900, 2500, 110
 	}
 	nhs, env := xl.tables()
 	cw := vh.NewCases(a, "From Coq Require Import List NArith ZArith.\nFrom Verif Require Import Common.GoStr C28.Model.\nImport ListNotations.\nOpen Scope Z_scope.", "case", "mismatches", perShard)
 	idx := 0
+	var blockCases, mapCases []string
 	modelable := func(i int) bool { return u[i].coq != "" }
 	for bI := 0; bI < nblocks; bI++ {
 		var blk []int
@@ -918,7 +917,7 @@ func main() {
 			}
 			rows = append(rows, vh.CoqList(row, "bool"))
 		}
-		cw.Add(fmt.Sprintf("CTypes %d %s %s\n  %s\n  %s\n  %s", idx, nhs, env, vh.CoqList(ts, "ty"), vh.CoqList(hs, "Z"), vh.CoqList(rows, "(list bool)")))
+		blockCases = append(blockCases, fmt.Sprintf("CTypes %d %s %s\n  %s\n  %s\n  %s", idx, nhs, env, vh.CoqList(ts, "ty"), vh.CoqList(hs, "Z"), vh.CoqList(rows, "(list bool)")))
 		rep.CaseInput(idx, map[string]interface{}{"kind": "types", "terms": in})
 		if bI%17 == 1 {
 			rep.Sample(in[:6])
@@ -985,12 +984,25 @@ func main() {
 		rep.Count(fmt.Sprint(specsOf(keys), ops), nt)
 		rep.Dist(fmt.Sprintf("map_history_len:%d-%d", nops/20*20, nops/20*20+19))
 		if okc {
-			cw.Add(fmt.Sprintf("CMap %d %s\n  %s\n  %s\n  %s", idx, nhs, vh.CoqList(kc, "ty"), vh.CoqList(cops, "(mop N)"), vh.CoqList(couts, "(mout N)")))
+			mapCases = append(mapCases, fmt.Sprintf("CMap %d %s\n  %s\n  %s\n  %s", idx, nhs, vh.CoqList(kc, "ty"), vh.CoqList(cops, "(mop N)"), vh.CoqList(couts, "(mout N)")))
 			rep.CaseInput(idx, map[string]interface{}{"kind": "map", "keys": specsOf(keys), "ops": ops})
 			idx++
 		}
 		if hI == 3 {
 			rep.Sample(map[string]interface{}{"keys": specsOf(keys), "ops": ops[:8]})
+		}
+	}
+	// interleave the (heavier) type blocks with the map histories so that the shards take similar time
+	for i, j := 0, 0; i < len(blockCases) || j < len(mapCases); {
+		if i < len(blockCases) && i*len(mapCases) <= j*len(blockCases) {
+			cw.Add(blockCases[i])
+			i++
+		} else if j < len(mapCases) {
+			cw.Add(mapCases[j])
+			j++
+		} else {
+			cw.Add(blockCases[i])
+			i++
 		}
 	}
 	cw.Close()
